@@ -358,6 +358,18 @@ MUTANTS += [
     B("c07-directed-remove-node-walks-live-list", "C07", D, "            target_edges = self.get_target_edges(node)\n            source_edges = self.get_source_edges(node)\n            for edge in source_edges:\n                self.remove_edge(edge)\n            for edge in target_edges:\n                self.remove_edge(edge)\n", "            for e_idx in self._adj_source[node]:\n                self.remove_edge(self._reverse_edge_list[e_idx])\n            for e_idx in self._adj_target[node]:\n                self.remove_edge(self._reverse_edge_list[e_idx])\n", "E-LIVEITER"),
 ]
 
+# ---------------------------------------------------------------------- rules of seed round se
+MUTANTS += [
+    # P-ACCUM omitted-weight-is-1
+    B("c01-omitted-weight-leaves-existing-weight", "C01", H, "            if self._weighted:\n                self._weights[self._edge_list[edge]] += weight\n            if metadata is not None:\n", "            if self._weighted and weight is not None:\n                self._weights[self._edge_list[edge]] += weight\n            if metadata is not None:\n", "P-ACCUM"),
+    # Q-STRONG: crossed quantifier
+    B("c12-strong-every-target-points-back", "C12", REC, "        if set(source).issubset(covered):", "        if all(node in node_reach and not set(source).isdisjoint(node_reach[node]) for node in target):", "Q-STRONG"),
+    # D-SYM size-1: the increment reads the weight
+    B("c18-transition-rates-read-weights", "C18", RW, "                T[l[i], l[j]] += len(l) - 1\n                T[l[j], l[i]] += len(l) - 1\n", "                T[l[i], l[j]] += (len(l) - 1) * HG.get_weight(l)\n                T[l[j], l[i]] += (len(l) - 1) * HG.get_weight(l)\n", "D-SYM"),
+    # K-ROLEMEM
+    B("c07-skip-targets-by-source-sets", "C07", D, "            for edge in target_edges:\n                self.remove_edge(edge)\n", "            handled = {edge[0] for edge in source_edges}\n            for edge in target_edges:\n                if edge[1] in handled:\n                    continue\n                self.remove_edge(edge)\n", "K-ROLEMEM"),
+]
+
 
 def for_property(prop: str) -> List[Mutant]:
     return [m for m in MUTANTS if m.prop == prop]
